@@ -1215,7 +1215,7 @@ func (c *Conn) writeCompressedMessages(codec CompressionCodec, msgs ...Message) 
 			}
 		},
 		func(deadline time.Time, size int) error {
-			return expectZeroSize(readArrayWith(&c.rbuf, size, func(r *bufio.Reader, size int) (int, error) {
+			size, err := readArrayWith(&c.rbuf, size, func(r *bufio.Reader, size int) (int, error) {
 				// Skip the topic, we've produced the message to only one topic,
 				// no need to waste resources loading it in memory.
 				size, err := discardString(r, size)
@@ -1261,7 +1261,17 @@ func (c *Conn) writeCompressedMessages(codec CompressionCodec, msgs ...Message) 
 				// The response is trailed by the throttle time, also skipping
 				// since it's not interesting here.
 				return discardInt32(r, size)
-			}))
+			})
+			var kafkaError Error
+			if errors.As(err, &kafkaError) {
+				// The broker reported an error for the partition, the rest of the
+				// response must still be consumed to keep the connection usable.
+				if _, discardErr := discardN(&c.rbuf, size, size); discardErr != nil {
+					err = discardErr
+				}
+				return err
+			}
+			return expectZeroSize(size, err)
 		},
 	)
 
